@@ -29,6 +29,10 @@ pub enum WOp {
     /// buffer that has grown at the end by this many bytes (as `io::copy`-style pumps do); the
     /// record announced by the first poll must still carry exactly its first bytes
     WriteGrowing(u32, u8),
+    /// `poll_write_vectored` with the bytes of a Write(len) cut into 2..4 slices (pattern: bit 0 =
+    /// an empty slice in front, bits 1..2 / 3..4 = where the cuts are): whatever count it reports
+    /// is a prefix of the concatenation and appears as one record, like any other write
+    WriteVectored(u32, u8),
 }
 
 #[derive(Clone, Debug, Serialize, Deserialize)]
@@ -110,7 +114,7 @@ pub fn test(c: &Case) -> TestResult {
     let input = wire::encode_all(&in_recs);
     let e1: Vec<_> = model::stream_model(c.id, 1, &in_recs, 3).replies;
     // Large write volumes scale the accepted sizes so that a case stays cheap.
-    let total: usize = c.writers.iter().flat_map(|w| w.ops.iter()).map(|o| if let WOp::Write(n) | WOp::WriteGrowing(n, _) = o { (*n as usize).min(65535) } else { 0 }).sum();
+    let total: usize = c.writers.iter().flat_map(|w| w.ops.iter()).map(|o| if let WOp::Write(n) | WOp::WriteGrowing(n, _) | WOp::WriteVectored(n, _) = o { (*n as usize).min(65535) } else { 0 }).sum();
     let mult = 1 + total / 3000;
     let write_script: Vec<WStep> = c.write_script.iter().map(|s| match s {
         WStep::Accept(n) => WStep::Accept((*n as usize * mult).min(65535) as u16),
@@ -285,6 +289,48 @@ pub fn test(c: &Case) -> TestResult {
                         },
                     }
                 },
+                WOp::WriteVectored(len, pat) => {
+                    if a.cur.is_none() {
+                        a.cur = Some(write_data(k, a.next, len as usize));
+                        a.announced = (len as usize).min(65535);
+                    }
+                    let announced = a.announced;
+                    let data = a.cur.as_ref().unwrap();
+                    let l = data.len();
+                    let c1 = l * (1 + usize::from((pat >> 1) & 3)) / 6;
+                    let c2 = c1 + (l - c1) * usize::from((pat >> 3) & 3) / 4;
+                    let mut slices: Vec<std::io::IoSlice<'_>> = Vec::new();
+                    if pat & 1 == 1 {
+                        slices.push(std::io::IoSlice::new(&[]));
+                    }
+                    slices.push(std::io::IoSlice::new(&data[..c1]));
+                    slices.push(std::io::IoSlice::new(&data[c1..c2]));
+                    if pat & 0x20 != 0 {
+                        slices.push(std::io::IoSlice::new(&[]));
+                    }
+                    slices.push(std::io::IoSlice::new(&data[c2..]));
+                    match Pin::new(a.w.as_mut().unwrap()).poll_write_vectored(&mut cx, &slices) {
+                        Poll::Ready(Ok(n)) => {
+                            vensure!(n <= announced && (n > 0 || announced == 0), "c10-write-count", "poll_write_vectored of {l} bytes in {} slices returned {n}", slices.len());
+                            if n > 0 {
+                                completed.push((k, a.next, a.ty, data[..n].to_vec()));
+                            }
+                            a.cur = None;
+                            a.next += 1;
+                            std::task::Wake::wake_by_ref(&a.flag);
+                        },
+                        Poll::Ready(Err(e)) => vfail!("c10-write-error", "poll_write_vectored failed on a fault-free transport: {e}"),
+                        Poll::Pending => {
+                            let w = world.lock().unwrap();
+                            if w.write_calls == calls_before {
+                                let (_, used) = wire::decode_log(&w.log[validated..]).map_err(|e| Fail::new("c10-log-malformed", e))?;
+                                if validated + used < w.log.len() {
+                                    contended_mid_record = true;
+                                }
+                            }
+                        },
+                    }
+                },
                 WOp::Flush => match Pin::new(a.w.as_mut().unwrap()).poll_flush(&mut cx) {
                     Poll::Ready(Ok(())) => {
                         a.next += 1;
@@ -410,6 +456,7 @@ fn wop() -> BoxedStrategy<WOp> {
         8 => prop_oneof![2 => Just(0u32), 2 => Just(1), 2 => Just(7), 2 => Just(8), 2 => Just(9), 2 => Just(300), 1 => Just(65535), 1 => Just(65536), 1 => Just(70000), 6 => 1u32..=40, 3 => 1u32..=3000].prop_map(WOp::Write),
         1 => Just(WOp::Flush),
         1 => (prop_oneof![1u32..=40, 1u32..=3000, Just(65535u32)], any::<u8>()).prop_map(|(l, g)| WOp::WriteGrowing(l, g)),
+        1 => (prop_oneof![1u32..=40, 1u32..=3000, Just(65535u32), Just(70000u32)], any::<u8>()).prop_map(|(l, g)| WOp::WriteVectored(l, g)),
     ]
     .boxed()
 }
